@@ -544,7 +544,6 @@ func membersDiffer(ctx context.Context, mems [2]*ocimem.Registry, m *reg.Model) 
 	return ""
 }
 
-
 func u2resume(ctx context.Context, repo, id string, u ociregistry.Interface) (ociregistry.BlobWriter, error) {
 	return u.PushBlobChunkedResume(ctx, repo, id, -1, 0)
 }
